@@ -10,6 +10,19 @@ sys.path.insert(0, V)
 PROPS = [f'C{i:02d}' for i in range(1, 21)]
 
 
+_CLEAN = {}
+
+
+def _base(p, mod):
+    # the clean tree's findings per property are the same for every stored change: once per worker process
+    from sa.core import load_repo
+    if 'repo' not in _CLEAN:
+        _CLEAN['repo'] = load_repo()
+    if p not in _CLEAN:
+        _CLEAN[p] = {f.key for f in mod.run(_CLEAN['repo'], 'quick').findings}
+    return _CLEAN[p]
+
+
 def work(args):
     kind, d = args
     from sa.core import load_repo, AnalysisError
@@ -19,14 +32,13 @@ def work(args):
     srcs = _patched_sources(os.path.join(d, 'patch.diff'))
     if srcs is None:
         return name, 'PATCH DOES NOT APPLY'
-    clean = load_repo()
     repo2 = load_repo(overrides=srcs)
     props = PROPS if kind == 'benign' else [json.load(open(os.path.join(d, 'meta.json')))['property']]
     out = []
     for p in props:
         mod = importlib.import_module(f'sa.rules.{p}')
         try:
-            base = {f.key for f in mod.run(clean, 'quick').findings}
+            base = _base(p, mod)
             res = mod.run(repo2, 'quick')
             new = [f for f in res.findings if f.key not in base]
             floors = [r for r, n in res.floors.items() if res.rule_instances.get(r, 0) < n]
